@@ -450,6 +450,9 @@ class ApplyEffectsPair(Unit):
 
 
 UNITS = [ApplyEffectsPair()]
-TRUSTED = ["_apply_effect (grounding and pre-state evaluation of one effect) is used by contract; the unit covers one action instance with two effects "
+TRUSTED = ["_apply_effect is used by an ASSUMED contract that models an effect with ONE instance (one ground target): the expansion of a quantified effect into several instances "
+           "reaching the same ground fluent is outside it -- the two defects repaired in 4d47c69 / 1d5a99b lived exactly there and were found by the bounded families "
+           "crafted_forall_accumulation / crafted_forall_assignment, not by the unit",
+           "_apply_effect (grounding and pre-state evaluation of one effect) is used by contract; the unit covers one action instance with two effects "
            "(every pair of effect kinds, equal or different ground fluents): a bounded symbolic check of the real merge code, not a proof for any number of effects",
            "constants are canonical (C16); values have the fluent's type class (C23)"]
